@@ -340,6 +340,15 @@ def processVariables (cfg : Cfg) (ctx : Ctx) (s : Str) : Res :=
 /-- `mRNA.get_required_variables()`: the names of all `{{name}}` occurrences of the template text -/
 def requiredVars (cfg : Cfg) (s : Str) : List Str := hits (scanStr (matchWordTag cfg LL) s)
 
+/-- the replacement callback of the include pass: a registered name is rendered by `recS` (its warnings are dropped),
+    an unknown name becomes the marker -/
+def incRepl (cfg : Cfg) (recS : Str → Res) (n : Str) : Res :=
+  match lookup n cfg.templates with
+  | some t => (match recS t with
+               | .ok (x, _) => .ok (x, [])
+               | .error e => .error e)
+  | none => .ok (cfg.markerPre ++ n ++ cfg.markerSuf, [])
+
 /-- `Ribosome.translate` on a template sequence.  `fuel` bounds the include depth (CPython: the recursion
     limit); running out is `RecursionError`. -/
 def translate (cfg : Cfg) (ctx : Ctx) : Nat → Str → Res
@@ -348,13 +357,7 @@ def translate (cfg : Cfg) (ctx : Ctx) : Nat → Str → Res
     let miss := (requiredVars cfg s).filter (fun n => !isBound ctx n)
     if cfg.strict && !miss.isEmpty then .error .value else
     let s2 := processLoops cfg ctx (processConditionals cfg ctx s)
-    match subM (fun (n : Str) =>
-        match lookup n cfg.templates with
-        | some t => (match translate cfg ctx fuel t with
-                     | .ok (x, _) => .ok (x, [])
-                     | .error e => .error e)
-        | none => .ok (cfg.markerPre ++ n ++ cfg.markerSuf, []))
-      (scanStr (matchWordTag cfg INCH) s2) with
+    match subM (incRepl cfg (translate cfg ctx fuel)) (scanStr (matchWordTag cfg INCH) s2) with
     | .error e => .error e
     | .ok (s3, _) =>
       match processVariables cfg ctx s3 with
